@@ -607,4 +607,93 @@ theorem sumEval_congr (f g : Incomplete → Out) {cs cs' : List (Incomplete × R
     · rfl
     · exact ih _ _
 
+/-- an estimate sees its constituents through their getters, their ranges and the counts -/
+theorem estimate_congr {cs cs' : List (Incomplete × Rat)}
+    (h : List.Forall₂ (fun a b => SameValues a.1 b.1 ∧ a.1.range = b.1.range ∧ a.2 = b.2) cs cs')
+    {e : Estimate} (hmk : Estimate.mk cs = .ok e) :
+    ∃ e', Estimate.mk cs' = .ok e' ∧ e'.range = e.range ∧
+      ∀ T, e.CpoR T = e'.CpoR T ∧ e.HoRT T = e'.HoRT T ∧ e.SoR T = e'.SoR T ∧ e.GoRT T = e'.GoRT T := by
+  have hr : cs.map (fun c => c.1.range) = cs'.map (fun c => c.1.range) := by
+    clear hmk
+    induction h with
+    | nil => rfl
+    | cons h1 _ ih => simp only [List.map_cons, h1.2.1, ih]
+  unfold Estimate.mk at hmk ⊢
+  simp only at hmk ⊢
+  rw [← hr]
+  split at hmk
+  · cases hmk
+  · rename_i hb
+    simp only [Except.ok.injEq] at hmk
+    subst hmk
+    refine ⟨⟨cs', estRange (cs.map fun c => c.1.range)⟩, by rw [if_neg hb], rfl, fun T => ?_⟩
+    have hq : ∀ q : Getter, List.Forall₂ (fun a b => (fun c => getter q c T) a.1 = (fun c => getter q c T) b.1 ∧ a.2 = b.2) cs cs' :=
+      fun q => h.imp (fun _ _ hab => ⟨hab.1 q T, hab.2.2⟩)
+    have hcp := sumEval_congr (fun c => getter .cp c T) (fun c => getter .cp c T) (hq .cp) 0 false
+    have hh := sumEval_congr (fun c => getter .h c T) (fun c => getter .h c T) (hq .h) 0 false
+    have hs := sumEval_congr (fun c => getter .s c T) (fun c => getter .s c T) (hq .s) 0 false
+    refine ⟨hcp, hh, hs, ?_⟩
+    show gibbs _ _ = gibbs _ _
+    have hh' : Estimate.HoRT ⟨cs, estRange (cs.map fun c => c.1.range)⟩ T =
+        Estimate.HoRT ⟨cs', estRange (cs.map fun c => c.1.range)⟩ T := hh
+    have hs' : Estimate.SoR ⟨cs, estRange (cs.map fun c => c.1.range)⟩ T =
+        Estimate.SoR ⟨cs', estRange (cs.map fun c => c.1.range)⟩ T := hs
+    rw [hh', hs']
+
+/-- the C13 view of the state after `update` is `Merge.update`'s result: the state machine refines the C13 model -/
+theorem update_ok_built (ev : RawEval) (self : Obj) (d : Corr) (ow : Bool) (h : (update ev self d ow).2 = none) :
+    (update ev self d ow).1.built = !(update ev self d ow).1.c.cp.isEmpty := by
+  unfold update at h ⊢
+  simp only at h ⊢
+  cases hm : mergeCp ow self.c.cp self.c.cp d.cp with
+  | error e1 => simp [hm] at h
+  | ok cp =>
+    simp only [hm] at h ⊢
+    cases hr : mergeRefs ev ow self.c d cp (unionRange self.c.range d.range) with
+    | error e2 => simp [hr] at h
+    | ok HS =>
+      obtain ⟨H, S⟩ := HS
+      simp only [hr] at h ⊢
+      cases hv : checkValid cp self.c.Tref (unionRange self.c.range d.range) with
+      | error e3 => simp [hv] at h
+      | ok u =>
+        simp only [hv] at h ⊢
+        have hs : setupCheck cp self.c.Tref (unionRange self.c.range d.range) = .ok () := setupCheck_of_checkValid hv
+        rw [Merge.setup_ok (c := ⟨H, S, cp, self.c.Tref, unionRange self.c.range d.range⟩) hs]
+
+theorem update_refines {S : Spl} {o : Incomplete} (hf : FreshS S o) (d : Corr) (ow : Bool) :
+    toObj (stepUpdate S o d ow).1 = (update (rawEvalOf S) (toObj o) d ow).1 := by
+  unfold stepUpdate
+  simp only
+  cases hu : (update (rawEvalOf S) (toObj o) d ow).2 with
+  | some e => exact (update_atomic _ _ _ _ e hu).symm
+  | none =>
+    simp only
+    obtain ⟨hv, -, hn⟩ := update_ok_data (rawEvalOf S) (toObj o) d ow hu
+    have hbuilt := update_ok_built (rawEvalOf S) (toObj o) d ow hu
+    have hn' := hn hf.nodup
+    have hvp := (checkValid_iff _ _ _).mp hv
+    generalize (update (rawEvalOf S) (toObj o) d ow).1 = r at hv hn' hvp hbuilt ⊢
+    obtain ⟨c, b⟩ := r
+    simp only at hv hn' hvp hbuilt ⊢
+    subst hbuilt
+    have hs := setup_ok_of_valid S (o := ⟨c.H, c.S, c.cp, c.Tref, c.range, none⟩) hvp hn'
+    have hfr := freshS_of_setup (S := S) (o := ⟨c.H, c.S, c.cp, c.Tref, c.range, none⟩) (baseInitOk_of_valid hvp) hn' hs
+    have hh := setup_held S ⟨c.H, c.S, c.cp, c.Tref, c.range, none⟩
+    obtain ⟨-, -, f3, -, -⟩ := setup_fields S ⟨c.H, c.S, c.cp, c.Tref, c.range, none⟩
+    cases hst : setup S ⟨c.H, c.S, c.cp, c.Tref, c.range, none⟩ with
+    | mk o' e =>
+      rw [hst] at hs hfr hh f3
+      simp only at hs hfr hh f3
+      subst hs
+      simp only [toObj]
+      have hc : held o' = c := hh
+      rw [hc]
+      congr 1
+      cases hcp : o'.cp with
+      | nil => rw [hfr.nocp hcp, ← f3, hcp]; rfl
+      | cons p ps =>
+        obtain ⟨_, _, dd, -, hcorr, -, -⟩ := hfr.hascp (by rw [hcp]; simp)
+        rw [hcorr, ← f3, hcp]; rfl
+
 end PGA.CorrHistory
